@@ -61,6 +61,61 @@ theorem constructed_pool_name (ty : DType) (id : String) (fmt : Fmt) (pool : Opt
       | none => exact h1 ⟨hf, rfl⟩
       | some p => exact fun hp => h2 ⟨hf, by rw [hp]⟩
 
+/-- **the sentinel test is equality, at every site**: `Delegation(...)` (definition / reference), `Pool(...)` and `add_pool` refuse a
+pool name iff it IS `singlePoolName`; every other name - one that starts or ends with it, contains it, doubles it - is accepted
+and kept as it is (the translator probes exactly this on the code: gen/delegconsts.py `_probe_sentinel_sites`) -/
+theorem sentinel_exact_sites (ty : DType) (id : String) (fmt : Fmt) (hf : fmt ≠ .single) (p : String)
+    (deleg on_ : Option String) (for_ : List String) (ps : Pools D) (q : Pool D) (hq : q.ty = ps.ty) (hqp : q.pid = p) :
+    ((mkDelegation ty id fmt (some p) : Except Err (Delegation D)) =
+        if p = singlePoolName then .error .delegation else .ok { ty := ty, id := id, fmt := fmt, pool := some p, details := none }) ∧
+    ((newPool ty p deleg on_ for_ : Except Err (Pool D)) =
+        if p = singlePoolName then .error .pool else .ok (mkPool ty p deleg on_ for_)) ∧
+    (addPool ps q = if p = singlePoolName then .error .pool else .ok { ps with byId := putPool q ps.byId }) := by
+  refine ⟨?_, ?_, ?_⟩
+  · by_cases h : p = singlePoolName <;> simp [mkDelegation, hf, h]
+  · simp [newPool]
+  · by_cases h : p = singlePoolName <;> simp [addPool, hq, hqp, h]
+
+/-- **the decoder's sentinel test is equality**: whatever else an entry holds, when `from_json` accepts an entry whose `pool_id` is the
+string `p` it appends ONE delegation under the entry's key, and that delegation is a single-resource delegation (no pool name)
+iff `p = singlePoolName`; for every other `p` it is the definition of the pool named `p` (cf. seeded C12-r4-1: `startswith`) -/
+theorem sentinel_exact_decode (ops : DetailOps D) (ty : DType) (ds ds' : Delegations D) (k p : String)
+    (e : List (String × Deleg.JVal)) (h : lookup fieldPoolId e = some (.str p))
+    (hd : decodeEntry ops ty ds k (.obj e) = .ok ds') :
+    ∃ d, ds'.items = ds.items ++ [d] ∧ d.id = k ∧
+      ((p = singlePoolName ∧ d.fmt = .single ∧ d.pool = none) ∨ (p ≠ singlePoolName ∧ d.fmt = .definition ∧ d.pool = some p)) := by
+  unfold decodeEntry at hd
+  simp only [h] at hd
+  split at hd
+  · cases hd
+  · simp only [poolOf, bind, Except.bind] at hd
+    split at hd
+    · cases hd
+    · rename_i dj _
+      cases hx : ops.fromDict ty dj with
+      | error err => simp [hx] at hd
+      | ok x =>
+        simp only [hx] at hd
+        by_cases hp : p = singlePoolName
+        · simp only [hp, if_true] at hd
+          obtain ⟨d, h1, h2, h3, h4⟩ := build_tail_ok ops ty k .single none x ds ds' hd
+          exact ⟨d, h1, h2, .inl ⟨hp, h3, h4⟩⟩
+        · have hne : (some p = some singlePoolName) = False := by simp [hp]
+          simp only [hne, if_false] at hd
+          obtain ⟨d, h1, h2, h3, h4⟩ := build_tail_ok ops ty k .definition (some p) x ds ds' hd
+          exact ⟨d, h1, h2, .inr ⟨hp, h3, h4⟩⟩
+
+/-- non-vacuity: a pool named `"_mgmt"` (corpus/C12/pool_name_starts_with_sentinel.json) is constructed, and its definition decodes
+as a definition of `"_mgmt"`; the same entry under the name `"_"` is a single-resource delegation -/
+example : (mkDelegation .cap "d" .definition (some "_mgmt") : Except Err (Delegation Det)) =
+      .ok { ty := .cap, id := "d", fmt := .definition, pool := some "_mgmt", details := none } ∧
+    decodeEntry detOps .cap { ty := .cap, items := [] } "d" (.obj [(fieldPoolId, .str "_mgmt"), (fieldCapacities, .obj [("core", .int 2)])]) =
+      .ok { ty := .cap, items := [{ ty := .cap, id := "d", fmt := .definition, pool := some "_mgmt",
+                                    details := some (setField (defaultDet .cap) "core" (.int 2)) }] } ∧
+    decodeEntry detOps .cap { ty := .cap, items := [] } "d" (.obj [(fieldPoolId, .str "_"), (fieldCapacities, .obj [("core", .int 2)])]) =
+      .ok { ty := .cap, items := [{ ty := .cap, id := "d", fmt := .single, pool := none,
+                                    details := some (setField (defaultDet .cap) "core" (.int 2)) }] } := ⟨rfl, rfl, rfl⟩
+
 /-- **every well-formed delegation set** (single ⇒ non-empty details, no pool; definition ⇒ pool name, non-empty
 details; reference ⇒ pool name, no details; distinct ids; details that survive their own codec) decodes from its
 encoding to exactly itself: same ids in the same order, same formats, pool names, details and type -/
